@@ -44,7 +44,7 @@ func isCanonicalAddrString(t *Term) bool {
 }
 
 func checkAddrCanon(w *World, r *Report, tm *Terms) {
-	r.Rule("ADDR-CANON", "address strings written into records are canonical (AccAddress.String of a parsed address)", 4)
+	r.Rule("ADDR-CANON", "address strings written into records are canonical (AccAddress.String of a parsed address)", 3)
 	// every Set of a record with an address string, in every calling context from the module's API: a helper's record
 	// parameter is judged by what its callers pass, an API function's parameter is the caller's raw input
 	type verdict struct {
